@@ -44,6 +44,10 @@ fn("hypercorn.trio.run:worker_serve",
        ("C15.listeners-after-startup", "call_index('Lifespan.wait_for_startup') >= 0 or n_after_gap('calls') >= 0", "C14"),
        # C18.jitter: the worker's request budget is max_requests plus a jitter in [0, max_requests_jitter]
        ("C18.jitter", JITTER, "C18"),
+       # C18 "as soon as a worker has taken on more than max_requests ... it begins a graceful exit":
+       # whatever trigger the caller supplies, a watcher on the worker's own terminate event (set by
+       # mark_request) is started next to it, and it ends the serving phase like the trigger does
+       ("C18.trigger", "trace_any('spawned_ever', 's', watches(s, local('context').terminate, 'wait'))", "C18,C15"),
        # C15.bound: from the moment shutdown is announced the server nursery is left within graceful_timeout
        ("C15.grace-deadline", "call_time('Lifespan.wait_for_shutdown') <= call_time('Event.set') + config.graceful_timeout", "C15"),
    ],
@@ -80,8 +84,20 @@ fn("hypercorn.asyncio.run:worker_serve",
    ensures=[
        ("C14.shutdown-once", "count_calls('Lifespan.wait_for_shutdown') == 1", "C14,C15"),
        ("C18.jitter", JITTER, "C18"),
+       # C18 "as soon as a worker has taken on more than max_requests ... it begins a graceful exit":
+       # whatever trigger the caller supplies, a watcher on the worker's own terminate event (set by
+       # mark_request) is started next to it, and it ends the serving phase like the trigger does
+       ("C18.trigger", "trace_any('spawned_ever', 's', watches(s, local('context').terminate, 'wait'))", "C18,C15"),
        # C15.bound: the server tasks are given graceful_timeout from the moment shutdown is
        # announced to them, not more
        ("C15.grace-deadline", "call_time('Lifespan.wait_for_shutdown') <= call_time('Event.set') + config.graceful_timeout", "C15"),
    ],
    props=("C14", "C15", "C18"))
+
+# hypercorn.utils.raise_shutdown: the watcher both workers start for the caller's trigger and for
+# the worker's own terminate event.  It waits for its event exactly once and then always raises
+# ShutdownError (which is what ends the serving phase): it never returns normally.
+fn("hypercorn.utils:raise_shutdown", params={"shutdown_event": "callable{record:trigger_calls;coro:1}"},
+   raises={"ShutdownError": {"when": "True", "ensures": [("C15.raise_shutdown.waits-once", "n_emitted('trigger_calls') == 1", "C15,C18")]}},
+   ensures=[("C15.raise_shutdown.never-returns", "False", "C15,C18")],
+   props=("C15", "C18"))
